@@ -17,12 +17,7 @@ theorem Base.popTake (H : OHyp E rank Good) {s : St U π} (hb : Base E s) (nt : 
   obtain ⟨n1, st⟩ := hb.ninv.popTake nt key e h' h hkey
   refine ⟨⟨hs1, n1, ?_, hb.nodel⟩, st,
     ((only_setHeap s nt h').trans (only_setSucc _ nt key e.2)).trans (only_setPred _ nt e.2 key)⟩
-  intro nt'
-  show Heapq.IsHeap _ ((s.setHeap nt h').heapOf nt')
-  rw [St.heapOf_setHeap]
-  split
-  · exact (Heapq.pop_isHeap (ltE_weakOrder E.ops H.weak) _ _ _ (hb.hinv nt) h).1
-  · exact hb.hinv nt'
+  exact (hb.hinv.pop_on H hb.sinv nt e h' h).1
 
 theorem Popped.der {s : St U π} (hs : SInv E s) {nt : UNT U} {x : Prog} (h : Popped s nt x) : Der E x nt := by
   obtain ⟨k, hk⟩ := h
@@ -40,7 +35,7 @@ theorem NTInv.popTake (H : OHyp E rank Good) {s : St U π} (hb : Base E s) {nt :
     NTInv E (s.popTake nt key e h') nt ∧ Popped (s.popTake nt key e h') nt e.2 ∧
     (∀ x, Popped (s.popTake nt key e h') nt x → LE E nt x e.2) ∧ (∀ k, key = some k → LE E nt k e.2) := by
   obtain ⟨hm, hsub⟩ := mem_of_pop _ _ _ _ h
-  have hmin := (Heapq.pop_isHeap (ltE_weakOrder E.ops H.weak) _ _ _ (hb.hinv nt) h).2
+  have hmin := (hb.hinv.pop_on H hb.sinv nt e h' h).2
   have hsucc : (s.popTake nt key e h').succOf nt = AList.insert key e.2 (s.succOf nt) := by
     rw [popTake_succOf, if_pos rfl]
   have hheap : (s.popTake nt key e h').heapOf nt = h' := by
@@ -245,15 +240,8 @@ theorem NTInv.pushStep (H : OHyp E rank Good) {s1 s3 : St U π} (hb : Base E s1)
           unfold pushBoth pushOK
           rw [H.thr]
           simp [hk]
-        have hh3 : HInvN E (pushBoth E s2 nt pr (Tree.node F (args.set i q))) := by
-          rw [hpb]
-          intro nt'
-          rw [St.heapOf_setHeap]
-          split
-          · rename_i heq; subst heq
-            rw [hcs.heapOf]
-            exact Heapq.push_isHeap (ltE_weakOrder E.ops H.weak) _ _ (hb.hinv nt')
-          · rw [hcs.heapOf]; exact hb.hinv nt'
+        have hh3 : HInvN E (pushBoth E s2 nt pr (Tree.node F (args.set i q))) :=
+          HInvN.pushBoth_on H hs2 (by intro nt'; rw [hcs.heapOf]; exact hb.hinv nt') nt pr _ hpr
         have hsucc3 : ∀ nt', (pushBoth E s2 nt pr (Tree.node F (args.set i q))).succOf nt' = s1.succOf nt' := by
           intro nt'; rw [hpb]; show s2.succOf nt' = _; rw [hcs.succOf]; rfl
         have hkeys3 : (pushBoth E s2 nt pr (Tree.node F (args.set i q))).keys =
